@@ -124,7 +124,9 @@ def matcher_loop():
     f = find_func(fn, "_calc_overlapping_labels")
     want = ["overlap_arr = prediction_arr.astype(np.uint64)", "max_ref = int(max(ref_labels)) + 1",
             "overlap_arr = overlap_arr * max_ref + reference_arr", "overlap_arr[reference_arr == 0] = 0",
-            "return [(int(i % max_ref), int(i // max_ref)) for i in np.unique(overlap_arr) if i > max_ref]"]
+            "return [(int(i) % max_ref, int(i) // max_ref) for i in np.unique(overlap_arr) if i > max_ref]"]
+    # the decoding must be done on Python integers: `i % max_ref` on the np.uint64 scalar is float64 arithmetic in numpy 1.x (inexact
+    # beyond 2^53, defect D20), and only int(i) % max_ref is the Z.modulo / Z.div that gen_decode states
     if body_differs(f, want):
         raise Refuse("_calc_overlapping_labels: " + str(body_differs(f, want)))
     out.append("Definition gen_code_width : Z := 64.")
